@@ -69,8 +69,8 @@ func forwardsOnly(fn *ssa.Function, p *ssa.Parameter, idx int, method string) bo
 
 func rulesC03(c *Ctx) {
 	c.Explain = append(c.Explain,
-		"C03 (tree and overlays behave as an ordered map) — decided: (a) all implementations of the key-value tree interface in storage/mkvs agree on argument normalisation: a nil value passed to Insert is normalised to the empty value by every implementation (or forwarded untouched to one that does), so that 'inserted with empty value' can never read back as 'absent' in one layer and 'present' in another (found and repaired a genuine defect in the overlay); (b) transaction-context discipline in all consumers: every context obtained from NewTransaction() is closed on every exit (deferred Close registered before anything can fail), Commit() is only ever invoked on a context that originates from NewTransaction() in the same function, at most once per path, and no state write through that context follows its Commit; (c) failure atomicity of the in-memory tree mutators (doInsert, doRemove, Insert, RemoveExisting): no result of a fallible call is stored into a cached node before its error is tested, no error is produced after a modification, and the only fallible calls after the first modification are re-dereferences of children that were dereferenced successfully before it (two genuine defects found and repaired).",
-		"NOT decided: get/iterate/seek answers after arbitrary operation histories, eviction, lazy loading, the iterator state machine — value- and history-dependent.")
+		"C03 (tree and overlays behave as an ordered map) — decided: (a) all implementations of the key-value tree interface in storage/mkvs agree on argument normalisation: a nil value passed to Insert is normalised to the empty value by every implementation (or forwarded untouched to one that does), so that 'inserted with empty value' can never read back as 'absent' in one layer and 'present' in another (found and repaired a genuine defect in the overlay); (b) transaction-context discipline in all consumers: every context obtained from NewTransaction() is closed on every exit (deferred Close registered before anything can fail), Commit() is only ever invoked on a context that originates from NewTransaction() in the same function, at most once per path, and no state write through that context follows its Commit; (c) failure atomicity of the in-memory tree mutators (doInsert, doRemove, Insert, RemoveExisting): no result of a fallible call is stored into a cached node before its error is tested, no error is produced after a modification, and the only fallible calls after the first modification are re-dereferences of children that were dereferenced successfully before it (two genuine defects found and repaired); (d) in the tree iterator, when the seek key is at least as long as an internal node's path but sorts below it (so the whole subtree lies above the seek position), the node's own leaf, its left and its right child are all visited before the node is left without a result.",
+		"NOT decided: get/iterate/seek answers after arbitrary operation histories, eviction, lazy loading, the remaining (key-bit and key-length) conditions of the iterator state machine — value- and history-dependent.")
 	w := newWTF(c.P)
 	w.run()
 
@@ -205,6 +205,8 @@ func rulesC03(c *Ctx) {
 	dirtyRollbackRule(c, "C03.evict")
 	// a failed Insert/Remove leaves the cached tree as it was (F18, F19)
 	rulesC03Atomic(c)
+	// iterator: a subtree that lies entirely above the seek key is not skipped into
+	rulesC03Iter(c)
 	// every dereference refreshes the pointer's LRU position before anything is fetched (and therefore before anything
 	// can be evicted): the nodes on the path being traversed are the most recently used ones and are evicted last
 	if fn := c.needFn("C03.evict", "storage/mkvs.(*cache).derefNodePtr"); fn != nil {
